@@ -261,7 +261,11 @@ func main() {
 				} else {
 					err := processor.ReloadSubnets()
 					if err != nil {
+						// Keep the old ClientConf as well: publishing a newer generation while the
+						// old phantom subnets stay in place makes the registrars move outdated
+						// clients to a generation the subnets do not contain.
 						log.Errorf("failed to reload phantom subnets - aborting reload: %v", err)
+						continue
 					}
 					if !dnsOnly && apiRegServer != nil {
 						apiRegServer.NewClientConf(conf.latestClientConf)
